@@ -182,7 +182,7 @@ def rowsel(n, norepeat=False, allow_bad_int=True):
     alts = []
     lo, hi = (-n - 2, n + 1) if allow_bad_int else (-n, n - 1)
     if allow_bad_int or n > 0:
-        alts.append(st.tuples(st.integers(lo, hi), st.booleans()).map(lambda t: ["i", t[0], t[1]]))
+        alts.append(st.tuples(st.integers(lo, hi), st.sampled_from([False, False, True, True, 2])).map(lambda t: ["i", t[0], t[1]]))   # Python int, np.int64, 0-d array
     alts.append(slice_st(n))
     alts.append(slice_st(n))
     if n > 0:
